@@ -78,6 +78,14 @@ def do_replay(path):
     return 1 if hit else 0
 
 
+def nostd_gate():
+    """C06 (iii): not a solver query -- the crate must compile with default features (no_std in effect)"""
+    cmd = ['build', '--offline', '--lib']
+    rc1, out1 = runner.cargo(cmd, 'gate-nostd', cwd=runner.REPO)
+    rc2, out2 = runner.cargo(cmd + ['--features', 'std'], 'gate-std', cwd=runner.REPO)
+    return {'nostd_ok': rc1 == 0, 'std_ok': rc2 == 0, 'cmd': 'cd /repo && cargo ' + ' '.join(cmd), 'out': out1}
+
+
 def run_property(prop, tier, seed):
     t0 = time.time()
     caps = checks.TIERS[tier]
@@ -90,6 +98,18 @@ def run_property(prop, tier, seed):
     results, builds = runner.run_all(obs, caps, label=prop)
     known = load_known()
     violations, known_hits, inconclusive = [], [], []
+    gate = checks.PROPS[prop].get('gate')
+    gate_info = None
+    if gate == 'nostd_build':
+        gate_info = nostd_gate()
+        log('  build gate: no-std build %s, std build %s' % ('ok' if gate_info['nostd_ok'] else 'FAILED', 'ok' if gate_info['std_ok'] else 'FAILED'))
+        if not gate_info['nostd_ok'] and gate_info['std_ok']:
+            os.makedirs(os.path.join(VERIF, 'replays'), exist_ok=True)
+            path = os.path.join(VERIF, 'replays', '%s-build-gate.json' % prop)
+            json.dump({'property': prop, 'kind': 'build gate (not a solver query)', 'cmd': gate_info['cmd'], 'output': gate_info['out'][-4000:]}, open(path, 'w'), indent=1)
+            violations.append(({'harness': 'build-gate', 'profile': '-', 'ob': 'build-gate'}, {'cls': 'GATE', 'id': 0, 'desc': 'the crate does not build without the standard library', 'replay': os.path.relpath(path, VERIF)}, path))
+        elif not gate_info['nostd_ok']:
+            inconclusive.append('build gate: /repo does not compile with or without std')
     cands = []
     for r in results:
         if r['verdict'] == 'inconclusive':
@@ -195,6 +215,7 @@ def write_evidence(prop, tier, seed, results, builds, violations, known_hits, in
             'sat_variables_max': max([r.get('stats', {}).get('variables', 0) for r in results] or [0]),
             'inconclusive': inconclusive[:50],
             'known_findings_hit': [k.get('what') for k, _, _ in known_hits],
+            'allocator_symbols_referenced': sorted(x for x in stubs if 'alloc' in x),
             'repo': repo_state(),
             'engines': {'cbmc': '6.11.0 (CaDiCaL)', 'rustc': subprocess.run(['rustc', '--version'], stdout=subprocess.PIPE, text=True).stdout.strip()},
         },
@@ -207,7 +228,8 @@ def write_evidence(prop, tier, seed, results, builds, violations, known_hits, in
         'wall_s': round(wall, 1),
         'violations': len(violations),
     }
-    json.dump(ev, open(os.path.join(VERIF, 'evidence', prop + '.json'), 'w'), indent=1)
+    name = prop + '.json' if not os.environ.get('VERIF_ONLY') else '_debug_' + prop + '.json'   # partial debug runs never replace the evidence
+    json.dump(ev, open(os.path.join(VERIF, 'evidence', name), 'w'), indent=1)
 
 
 def main(argv):
